@@ -72,7 +72,8 @@ CHECKS["C10"] = {
 CHECKS["C11"] = {
     "level": "exploration",
     "subs": [
-        _sub("TestC11_Versions", 2000, 60000, sq=16, st=16),
+        _sub("TestC11_Versions", 2000, 60000, sq=10, st=10),
+        _sub("TestC11_UnderFaults", 300, 12000, sq=6, st=6),
     ],
 }
 CHECKS["C12"] = {
